@@ -19,7 +19,7 @@ using namespace smt;
 #define MAXC 16
 static bool a[MAXV]; // THE symbolic total assignment (a[0] = false is part of every premise)
 
-struct cl { int n; size_t x[3]; lit l(int k) const { return lit(x[k] >> 1, x[k] & 1); } }; // plain data: no dynamic initialiser
+struct cl { int n; size_t x[6]; lit l(int k) const { return lit(x[k] >> 1, x[k] & 1); } }; // plain data: no dynamic initialiser
 static cl orig[MAXC];
 static int norig;
 
@@ -110,7 +110,8 @@ __attribute__((noinline)) static void scenario() // noinline: cbmc counts loop u
   for (int c = 0; c < NC; c++)
   {
     const int n = rd();
-    lit ls[3];
+    CHECK(n <= 6, "harness bound on the clause length");
+    lit ls[6];
     std::vector<lit> v;
     for (int k = 0; k < n; k++) { int x = rd(); int sg = rd(); ls[k] = lit(b[x], sg != 0); v.push_back(ls[k]); }
     if (!alive) continue;
